@@ -19,6 +19,7 @@ import tempfile
 from harness import core
 from harness.gen import schema as S, isar, dag
 from harness.impl import py_impl
+from harness.model import client
 
 INTERNAL = (ValueError, KeyError, AttributeError, TypeError, IndexError, AssertionError, RecursionError)
 TIME_BOX = 10.0
@@ -125,6 +126,48 @@ PATCHES = ['', '\n', 'A', 'A dynamic', 'A dynamic a', 'A dynamic a b c', 'A gree
            'A remove', 'A rename', 'A rename a b c', 'A struct x', 'A struct', 'A type a', 'A nonsense a', 'B dynamic a b', 'A limited a zz', '\xff\xfe', 'A  type   a   u64  ']
 
 
+def rewire(rng, sc):
+    """structure-level corruption: point one type reference / array size / constant of an acyclic definition set at
+    another definition (itself, a later one, an earlier one) - makes self references, longer cycles, or nothing"""
+    import copy
+    sc = copy.deepcopy(sc)
+    names = [d.name for d in sc.decls]
+    structs = [d for d in sc.decls if isinstance(d, (S.Struct, S.Union))]
+    if structs and rng.random() < 0.3:
+        # a typedef chain that closes on itself, used by a member
+        chain = ['Tc%d' % i for i in range(rng.randint(1, 3))]
+        for i, n_ in enumerate(chain):
+            sc.decls.insert(rng.randrange(len(sc.decls) + 1), S.Typedef(n_, chain[(i + 1) % len(chain)] if rng.random() < 0.8 or i + 1 < len(chain) else rng.choice(names)))
+        d = rng.choice(structs)
+        if isinstance(d, S.Struct):
+            rng.choice(d.members).type = chain[0]
+        else:
+            i = rng.randrange(len(d.arms))
+            d.arms[i] = (d.arms[i][0], d.arms[i][1], chain[0])
+        return sc
+    for _ in range(rng.choice([1, 1, 2])):
+        d = rng.choice(sc.decls)
+        target = d.name if rng.random() < 0.4 else rng.choice(names)
+        if isinstance(d, S.Typedef):
+            d.target = target
+        elif isinstance(d, S.Struct):
+            m = rng.choice(d.members)
+            if m.mk == 'fixed' and rng.random() < 0.4:
+                m.size = target
+            else:
+                m.type = target
+        elif isinstance(d, S.Union):
+            i = rng.randrange(len(d.arms))
+            n_, disc, _ = d.arms[i]
+            d.arms[i] = (n_, disc, target)
+        elif isinstance(d, S.Const):
+            d.value = target if rng.random() < 0.5 else '%s + 1' % target
+        elif isinstance(d, S.Enum):
+            i = rng.randrange(len(d.members))
+            d.members[i] = (d.members[i][0], target)
+    return sc
+
+
 def run_c13(tier):
     chk = core.Check('C13', tier, level='proof')
     chk.rule = ('`prophyc.main(args)` in-process under a %.0f s interval timer on: token-level corruptions (delete / insert / replace / swap / '
@@ -137,6 +180,7 @@ def run_c13(tier):
     root = tempfile.mkdtemp(prefix='prophy-verif-')
     try:
         n = [0]
+        timeouts = [0]
 
         def case(kind, args, files, note):
             d = os.path.join(root, 'c%d' % n[0])
@@ -146,7 +190,12 @@ def run_c13(tier):
                 with open(os.path.join(d, name), 'wb') as f:
                     f.write(text if isinstance(text, bytes) else text.encode('utf-8', 'surrogatepass'))
             full = [a.replace('@D', d) for a in args]
+            if timeouts[0] >= 3:        # every time-out costs the whole time box; three replays are enough
+                shutil.rmtree(d, ignore_errors=True)
+                return 'skipped'
             outcome, msg = run_main(full)
+            if outcome == 'timeout':
+                timeouts[0] += 1
             chk.count((kind, str(args), str(sorted(files.items()))), outcome != 'ok')
             chk.bump('input:' + kind)
             chk.bump('outcome:' + outcome)
@@ -181,6 +230,25 @@ def run_c13(tier):
         # cyclic includes
         case('includes', outs + ['@D/a.prophy'], {'a.prophy': '#include "b.prophy"\n', 'b.prophy': '#include "a.prophy"\n'}, 'cycle of two')
         case('includes', outs + ['@D/a.prophy'], {'a.prophy': '#include "a.prophy"\n'}, 'self include')
+        # structure-level corruptions: rewired references (self references, cycles) - also against the Lean model of the sort
+        reqs, rows = [], []
+        for si in range(chk.scale(150, 1500)):
+            rsc = rewire(chk.rng, dag.gen_dag(chk.rng, n=chk.rng.randint(2, 7)))
+            order = list(range(len(rsc.decls)))
+            chk.rng.shuffle(order)
+            try:
+                xml = isar.to_isar(rsc, order)
+                decls = isar.topo_decls(rsc, order)
+            except Exception:  # noqa  (the rewired set cannot be rendered)
+                continue
+            outcome = case('rewired-isar', ['--isar'] + outs + ['@D/a.xml'], {'a.xml': xml}, 'rewired reference')
+            reqs.append({'op': 'prophyc_topo', 'decls': decls})
+            rows.append(({'kind': 'rewired-isar', 'xml': xml}, outcome))
+        for (casej, outcome), a in zip(rows, client.batch(reqs)):
+            chk.corr_compared += 1
+            chk.bump('model:' + ('cycle' if a.get('cycle') else 'sorted'))
+            if a.get('cycle') and outcome == 'ok':
+                chk.correspondence_mismatch('Topo.sortDecls reports a cycle = prophyc reports an error', casej, outcome, a)
         # token-level corruptions of generated schemas
         for si in range(chk.scale(60, 600)):
             sc = S.Gen(chk.rng, n_decls=6).schema()
